@@ -50,7 +50,7 @@ func init() {
 		ID:          "C03",
 		Run:         RunC03,
 		Replay:      func(c *Ctx, entry, input string) { CheckC03(c, entry, input) },
-		Rule:        "cases = (entry point, byte string): exhaustive strings over the 24-symbol alphabet through all 11 entry points (plus one more symbol for lexer/splitter), literal/escape/truncation matrix, number forms, adversarial nesting families (depth<=512, input<=16KiB), token mutants / hostile splices / random bytes over all 256 byte values; distinct_nontrivial = enumerated strings (distinct by construction) + distinct (entry,input) pairs of the random part",
+		Rule:        "cases = (entry point, byte string): exhaustive strings over the 24-symbol alphabet through all 11 entry points (plus one more symbol for lexer/splitter), literal/escape/truncation matrix, number forms, adversarial nesting families (depth<=512, input<=16KiB), late multi-line error ranges, every reserved / pseudo keyword after an erroneous prefix and in front of each kind of lexically malformed token, token mutants / hostile splices / random bytes over all 256 byte values; distinct_nontrivial = enumerated strings (distinct by construction) + distinct (entry,input) pairs of the random part",
 		Assumptions: []string{"bounded time is decided on a logical clock: token fetches <= 10*(bytes+16)^2 (hook H1); loops that fetch no token are left to the wall-clock watchdog", "inputs are bounded to 16 KiB and nesting depth 512"},
 		Floors: func(m *Merged) []string {
 			var f []string
@@ -64,7 +64,7 @@ func init() {
 		ID:          "C13",
 		Run:         RunC13,
 		Replay:      func(c *Ctx, entry, input string) { CheckC13(c, input) },
-		Rule:        "cases = byte strings: exhaustive over the 24-symbol alphabet up to length 5 (quick) / 6 (thorough), literal matrix, number forms, keyword casings, comment forms, corpus files, random hostile bytes; distinct_nontrivial = accepted enumerated strings (distinct by construction) + distinct accepted strings of the other workloads",
+		Rule:        "cases = byte strings: exhaustive over the 24-symbol alphabet up to length 5 (quick) / 6 (thorough), literal matrix, number forms, keyword casings, comment forms, every byte and every code point between two tokens, all \\u escapes, rendered sentences of grammar G, corpus files, random hostile bytes; distinct_nontrivial = accepted enumerated strings (distinct by construction) + distinct accepted strings of the other workloads",
 		Assumptions: []string{"whitespace means unicode.IsSpace (the property only says 'whitespace')"},
 		Floors: func(m *Merged) []string {
 			if m.Counters["accepted"] == 0 || m.Counters["comments"] == 0 {
@@ -77,7 +77,7 @@ func init() {
 		ID:          "C14",
 		Run:         RunC14,
 		Replay:      func(c *Ctx, entry, input string) { CheckC14(c, input) },
-		Rule:        "same workloads as C13; each input lexed by memefish and by the independent reference lexer (internal/reflex, DESIGN Appendix A); distinct_nontrivial = distinct (token-kind skeleton, literal values) classes among inputs accepted by both with >= 2 tokens",
+		Rule:        "same workloads as C13 plus every identifier-shaped word of up to 5 characters over [a-z0-9_] in lower and upper case (thorough: also every 6-letter word), which must be the reserved keyword it spells or an identifier; each input lexed by memefish and by the independent reference lexer (internal/reflex, DESIGN Appendix A); distinct_nontrivial = distinct (token-kind skeleton, literal values) classes among inputs accepted by both with >= 2 tokens",
 		Assumptions: []string{"the reference lexer is the specification; where the documentation is silent it answers 'unspecified' and the case is not judged (counted in coverage.counters.unspecified)"},
 		Floors: func(m *Merged) []string {
 			if m.Counters["ref_accept"] == 0 || m.Counters["ref_reject"] == 0 {
@@ -103,7 +103,7 @@ func init() {
 		ID:          "C20",
 		Run:         RunC20,
 		Replay:      func(c *Ctx, entry, input string) { ReplayC20(c, entry, input) },
-		Rule:        "cases = (text, pos, end): exhaustive texts of up to 6 (quick) / 8 (thorough) symbols over {a, LF, CR, é} x all pairs 0<=pos<=end<=len, random multi-line texts x sampled pairs, plus every *Error produced by token mutants / hostile bytes through all entry points; distinct_nontrivial = enumerated texts + distinct random texts + distinct (entry, first message) classes",
+		Rule:        "cases = (text, pos, end): exhaustive texts of up to 6 (quick) / 8 (thorough) symbols over {a, LF, CR, é} x all pairs 0<=pos<=end<=len, random multi-line texts x sampled pairs, many-line texts, ranges across line-number digit boundaries, plus every *Error produced by token mutants / hostile bytes through all entry points, and error inputs + Position.String() under 19 hostile file paths (%, :, newline, quotes, empty, long); distinct_nontrivial = enumerated texts + distinct random texts + distinct (entry, first message) classes",
 		Assumptions: []string{"numbered excerpt lines are recognised as '<spaces><digits>|<text>'; only the line number and that the text ends with the buffer line are checked, not the layout"},
 		Floors: func(m *Merged) []string {
 			if m.Counters["errors_checked"] == 0 {
